@@ -77,14 +77,21 @@ impl Future for YieldOnce {
 }
 
 /// A named asynchronous scheduling point: returns `Pending` (after waking itself) as many times as
-/// the installed hook table asks for; zero times when no hooks are installed.
+/// the installed hook table asks for, then asks again, until the table answers zero (so the
+/// simulator can hold a task at the point for as long as it wants); never yields when no hooks are
+/// installed.
 pub async fn yield_async(name: &'static str) {
-    let n = match hooks() {
-        Some(h) => (h.async_yields)(name),
-        None => 0,
-    };
-    for _ in 0..n {
-        YieldOnce(false).await;
+    loop {
+        let n = match hooks() {
+            Some(h) => (h.async_yields)(name),
+            None => 0,
+        };
+        if n == 0 {
+            return;
+        }
+        for _ in 0..n {
+            YieldOnce(false).await;
+        }
     }
 }
 
